@@ -516,13 +516,22 @@ func (dd *msgpipelineDelivery) BodyNonAtomic(ctx context.Context, c module.Statu
 func (dd msgpipelineDelivery) Commit(ctx context.Context) error {
 	dd.close()
 
+	var commitErr error
 	for _, delivery := range dd.deliveries {
+		if commitErr != nil {
+			// Nobody is going to call Abort after a failed Commit, let the
+			// remaining targets release whatever they hold for the message.
+			if err := delivery.Abort(ctx); err != nil {
+				dd.log.Debugf("delivery.Abort failure, Delivery object = %T: %v", delivery, err)
+			}
+			continue
+		}
 		if err := delivery.Commit(ctx); err != nil {
 			// No point in Committing remaining deliveries, everything is broken already.
-			return err
+			commitErr = err
 		}
 	}
-	return nil
+	return commitErr
 }
 
 func (dd *msgpipelineDelivery) close() {
